@@ -11,12 +11,16 @@ def dec_index(ix, env):
         return int(ix[1])
     if t == "npint":
         return np.int64(ix[1])
+    if t == "int0d":
+        return np.array(int(ix[1]))
     if t == "sl":
+        if len(ix) > 4 and ix[4] == "np":      # bounds given as numpy integers
+            return slice(*(None if b is None else np.int64(b) for b in ix[1:4]))
         return slice(ix[1], ix[2], ix[3])
     if t == "list":
         return [int(i) for i in ix[1]]
     if t == "arr":
-        return np.array(ix[1], dtype=np.int64)
+        return np.array(ix[1], dtype=ix[2] if len(ix) > 2 else np.int64)
     if t == "mask":
         return np.array(ix[1], dtype=bool)
     if t == "blist":
